@@ -4,7 +4,7 @@ set -u
 prop=$1; patch=$2
 if [ -n "$(git -C /repo status --porcelain)" ]; then echo "REFUSING: /repo has uncommitted changes (commit first)"; exit 9; fi
 cd /repo && git apply "$patch" || { echo "patch does not apply"; exit 3; }
-cd /verif && ./bin/govc check $prop 2>&1 | grep -E "VIOLATION|KNOWN|TOOL|property " | cut -c1-400
+cd /verif && ./bin/govc check $prop 2>&1 | grep -E "VIOLATION|TOOL|property " | cut -c1-400 | awk '/^property /{print; next} n<6{print; n++; next} {more++} END{if(more) print "... " more " more VIOLATION/TOOL lines"}' 
 rc=${PIPESTATUS[0]}
 git -C /repo checkout -- . 
 echo "exit=$rc"
